@@ -1,11 +1,16 @@
 //! Harness binary `h_sec2 <PROP> --seed S --tier T [--count N] [--replay F]`.
 //! One module per property (`cNN.rs`, `pub fn run(args: &hcore::Args, out: &mut hcore::Out)`).
 
+mod c18;
+mod c19;
+
 fn main() {
     let args = hcore::Args::parse();
     hcore::quiet_panics();
     let mut out = hcore::Out::new();
     match args.prop.as_str() {
+        "C18" => c18::run(&args, &mut out),
+        "C19" => c19::run(&args, &mut out),
         p => {
             let _ = &mut out;
             eprintln!("h_sec2: unknown property {p}");
